@@ -1317,6 +1317,8 @@ func TestVerifH2(t *testing.T) {
 		h2BindPipelined(t, vt)
 		vt.Flush()
 		h2SlowPermissionHandler(t, vt)
+		h2StaleStreamTeardown(t, vt)
+		h2UnsignedAttributes(t, vt)
 	}
 	for i := 0; i < nHist; i++ {
 		if only >= 0 && int64(i) != only {
